@@ -145,7 +145,7 @@ func (vc *VC) oblige(st *State, name, kind string, cond Term, pos token.Pos, tex
 	if goal.S == "true" {
 		return
 	}
-	o := &Obligation{Name: vc.fi.Key + "/" + name, Kind: kind, Func: vc.fi.Key, Pos: vc.posStr(pos), ScriptLen: len(vc.script), Goal: goal, Text: text, Values: vc.entryVals}
+	o := &Obligation{Name: vc.fi.Key + "/" + name, Kind: kind, Func: vc.fi.Key, Pos: vc.posStr(pos), ScriptLen: len(vc.script), Goal: goal, Text: text, Values: vc.valuesOf(st)}
 	vc.obls = append(vc.obls, o)
 	vc.emit("(assert " + goal.S + ")")
 }
@@ -157,8 +157,31 @@ func (vc *VC) obligeOnly(st *State, name, kind string, cond Term, pos token.Pos,
 	if goal.S == "true" {
 		return
 	}
-	o := &Obligation{Name: vc.fi.Key + "/" + name, Kind: kind, Func: vc.fi.Key, Pos: vc.posStr(pos), ScriptLen: len(vc.script), Goal: goal, Text: text, Values: vc.entryVals}
+	o := &Obligation{Name: vc.fi.Key + "/" + name, Kind: kind, Func: vc.fi.Key, Pos: vc.posStr(pos), ScriptLen: len(vc.script), Goal: goal, Text: text, Values: vc.valuesOf(st)}
 	vc.obls = append(vc.obls, o)
+}
+
+// valuesOf: the terms whose model values are reported when an obligation fails: the function's
+// parameters (entry values), witnesses, and the scalar locals of the state the obligation is checked in.
+func (vc *VC) valuesOf(st *State) []NamedTerm {
+	out := append([]NamedTerm{}, vc.entryVals...)
+	var extra []NamedTerm
+	for k, v := range st.env {
+		if k.obj == nil || k.path != "" {
+			if k.obj == nil && strings.HasPrefix(k.path, "$idx") {
+				extra = append(extra, NamedTerm{"loop-index", v})
+			}
+			continue
+		}
+		if v.Sort == SInt || v.Sort == SBool || v.Sort == SString {
+			extra = append(extra, NamedTerm{"local " + k.obj.Name(), v})
+		}
+	}
+	sort.Slice(extra, func(i, j int) bool { return extra[i].Name < extra[j].Name })
+	if len(extra) > 24 {
+		extra = extra[:24]
+	}
+	return append(out, extra...)
 }
 
 func (vc *VC) cover(st *State, name string, pos token.Pos) {
@@ -390,7 +413,8 @@ func (vc *VC) mapSorts(t types.Type) (string, string) {
 }
 
 func (vc *VC) mapHas(st *State, m, k Term) Term {
-	return Select(Select(vc.mapDom(st, k.Sort), m), k)
+	// a nil map holds nothing
+	return And(Not(Eq(m, IntLit(0))), Select(Select(vc.mapDom(st, k.Sort), m), k))
 }
 
 func (vc *VC) mapRead(st *State, m, k Term, vs string) Term {
